@@ -66,11 +66,15 @@ def intake(a):
     ran.append({"cmd": "pytest (pinned suite) with the change", "rc": s.returncode, "tail": s.stdout.strip().splitlines()[-1:]})
     w = sh(["/venv/bin/python", str(demo)], cwd=str(wt), env=env)
     ran.append({"cmd": f"{demo.name} with the change", "rc": w.returncode})
-    sh(["git", "stash", "--", "chartparse"], cwd=str(wt))
+    # (no `git stash`: the stash is shared by all worktrees of a repository)
+    rv = sh(["git", "apply", "-R", str(patch)], cwd=str(wt))
+    if rv.returncode != 0:
+        print("cannot reverse the patch:", rv.stderr[-300:])
+        return 2
     try:
         wo = sh(["/venv/bin/python", str(demo)], cwd=str(wt), env=env)
     finally:
-        sh(["git", "stash", "pop"], cwd=str(wt))
+        sh(["git", "apply", str(patch)], cwd=str(wt))
     ran.append({"cmd": f"{demo.name} without the change", "rc": wo.returncode})
     confirmed = suite_ok and w.returncode != 0 and wo.returncode == 0
     print(f"suite_with_change={'pass' if suite_ok else 'FAIL'} demo_with={w.returncode} demo_without={wo.returncode} confirmed={confirmed}")
